@@ -1,7 +1,7 @@
 (* C05: the block-level ledger operations never return the block-aborting error
    under the parameter sanity conditions (fees.go and TransferFromCommon as
    repaired in /repo HEAD). *)
-From Verif Require Import Lib.Base Ledger.SharePool Ledger.State Ledger.Ops Ledger.ConserveMap Ledger.Conserve.
+From Verif Require Import Lib.Base Ledger.SharePool Ledger.State Ledger.Ops Ledger.ConserveMap Ledger.Conserve Ledger.InvB.
 
 Lemma slash_never_fatal_l s addr amount : fst (slash s addr amount) = ROk.
 Proof.
@@ -163,4 +163,72 @@ Proof.
   destruct (sv =? 0) eqn:E4; [reflexivity|].
   destruct (pay_voters s1 left1 sv voters) as [[s2 left2]|] eqn:Ep; [reflexivity|].
   exfalso. exact (pay_voters_total voters s1 left1 sv Hl Ep).
+Qed.
+
+(* ---------- SlashEscrow for an arbitrary penalty vs. arbitrary balances ----------
+   state.go:768-787 slashPool moves MoveUpTo(min(balance, balance*amount/total)): what the
+   common pool gains is exactly what the two pools lose, also when the penalty exceeds
+   active + debonding (then both pools are emptied and nothing more is credited). *)
+Lemma div_add_le a b c : c <> 0 -> a / c + b / c <= (a + b) / c.
+Proof.
+  intros Hc. apply N.div_le_lower_bound; [exact Hc|].
+  rewrite N.mul_add_distr_l.
+  pose proof (N.mul_div_le a c Hc). pose proof (N.mul_div_le b c Hc). lia.
+Qed.
+
+Lemma slash_pools_spec ba bd amount ta td :
+  slash_pools ba bd amount = (ta, td) ->
+  ta <= ba /\ td <= bd /\ ta + td <= amount /\ (ba + bd <= amount -> ta = ba /\ td = bd).
+Proof.
+  unfold slash_pools, slash_take. intros H. injection H as <- <-.
+  destruct (ba + bd =? 0) eqn:E.
+  - apply N.eqb_eq in E. repeat split; lia.
+  - apply N.eqb_neq in E. set (T := ba + bd) in *.
+    split; [lia|]. split; [lia|]. split.
+    + pose proof (div_add_le (ba * amount) (bd * amount) T E) as H.
+      rewrite <- N.mul_add_distr_r in H. fold T in H.
+      rewrite (N.mul_comm T amount), N.div_mul in H by exact E. lia.
+    + intros Hle.
+      assert (H1 : ba <= ba * amount / T).
+      { apply N.div_le_lower_bound; [exact E|]. rewrite (N.mul_comm T ba). apply N.mul_le_mono_l. exact Hle. }
+      assert (H2 : bd <= bd * amount / T).
+      { apply N.div_le_lower_bound; [exact E|]. rewrite (N.mul_comm T bd). apply N.mul_le_mono_l. exact Hle. }
+      lia.
+Qed.
+
+Lemma slash_exact_l s addr amount :
+  let s' := snd (slash s addr amount) in
+  let a := acct s addr in let a' := acct s' addr in
+  common_pool s' + bal (active a') + bal (debonding a') = common_pool s + bal (active a) + bal (debonding a)
+  /\ common_pool s <= common_pool s' /\ common_pool s' - common_pool s <= amount
+  /\ bal (active a') <= bal (active a) /\ bal (debonding a') <= bal (debonding a)
+  /\ tsh (active a') = tsh (active a) /\ tsh (debonding a') = tsh (debonding a) /\ general a' = general a
+  /\ (bal (active a) + bal (debonding a) <= amount -> bal (active a') = 0 /\ bal (debonding a') = 0)
+  /\ (forall e, e <> addr -> acct s' e = acct s e)
+  /\ total_supply s' = total_supply s.
+Proof.
+  cbn zeta. unfold slash.
+  destruct (slash_pools _ _ amount) as [ta td] eqn:E.
+  destruct (slash_pools_spec _ _ _ _ _ E) as (Ha & Hd & Hamt & Hall).
+  destruct (ta + td =? 0) eqn:E0; cbn [snd].
+  - apply N.eqb_eq in E0. repeat split; try lia; try reflexivity.
+  - set (s1 := with_common s (common_pool s + (ta + td))).
+    assert (Hacc : acct (sub_deb_bal addr td (sub_active_bal addr ta s1)) addr
+                   = with_debonding (with_active (acct s addr) (mkPool (bal (active (acct s addr)) - ta) (tsh (active (acct s addr)))))
+                       (mkPool (bal (debonding (acct s addr)) - td) (tsh (debonding (acct s addr))))).
+    { unfold sub_deb_bal, sub_active_bal. rewrite !acct_upd_same. reflexivity. }
+    rewrite Hacc. cbn [with_debonding with_active active debonding bal tsh general].
+    change (common_pool (sub_deb_bal addr td (sub_active_bal addr ta s1))) with (common_pool s + (ta + td)).
+    repeat split; try lia; try reflexivity.
+    intros e He. unfold sub_deb_bal, sub_active_bal. rewrite !acct_upd_other by exact He. reflexivity.
+Qed.
+
+Example slash_repeated_example :
+  (* 150 active + 50 debonding, fixed penalty 120 three times: 120, then the remaining 80, then nothing *)
+  let s0 := mkSt [(1, mkAcct 0 0 (mkPool 150 150) (mkPool 50 50) [])] [((1, 1), 150)] [((1, 1, 9), 50)] 1200 1000 0 0 0 false in
+  let s3 := run ex_p s0 [OSlash 1 120; OSlash 1 120; OSlash 1 120] in
+  Inv s0 /\ common_pool s3 = 1200 /\ bal (active (acct s3 1)) = 0 /\ bal (debonding (acct s3 1)) = 0 /\ total_supply s3 = 1200.
+Proof.
+  cbn zeta. split; [|vm_compute; repeat split; reflexivity].
+  apply inv_b_correct_l. vm_compute. reflexivity.
 Qed.
